@@ -9,11 +9,11 @@ CHECKS = {
  'C02': ('seqx', 'model_checking',
          'explicit-state BFS over operation histories on the real library, canonical-state merging, dict reference model',
          'Every history over the operation alphabet up to the depth/deviation bound is executed on the real Container from several root states; '
-         'each distinct canonical state gets the full view battery (fresh and acting handle) against a dict model. Exhaustive within the bound.',
+         'each distinct canonical state gets the full view battery (fresh and acting handle) against a dict model; one pass runs with the internal batch-size thresholds lowered so that the small states also exercise multi-chunk IN queries and the sorted full scan. Exhaustive within the bound.',
          'Bounded depth and 4-content universe; SQLite/zlib/filesystem trusted; operations outside the alphabet not covered.', '5 C02, 3 E1'),
  'C03': ('seqx', 'model_checking',
          'explicit-state BFS over operation histories; per-state raw invariants with sqlite3+zlib only',
-         'Same exhaustive history space as C02; every distinct on-disk state is read without the library (sqlite3, slices, zlib, hashlib) and must satisfy the index/pack/loose invariants and reproduce every model object.',
+         'Same exhaustive history space as C02; every distinct on-disk state is read without the library (sqlite3, slices, zlib, hashlib) and must satisfy the index/pack/loose invariants and reproduce every model object. A second pass explores sequential histories through two handles (a handle with a pinned index snapshot running maintenance operations after the other handle wrote), where operations may refuse but no acknowledged object may be lost.',
          'Same bounds as C02; stdlib sqlite3/zlib stand in for the CLI tools of the documented recovery script.', '5 C03, 2.2'),
  'C05': ('crashx', 'fault_enumeration',
          'exhaustive crash-point enumeration: kill image at every mutating I/O call boundary of every operation variant, on the real library',
@@ -25,7 +25,7 @@ CHECKS = {
          'Storage model as stated in the property; reordering between directory operations not modelled; F_FULLFSYNC path not executable on Linux.', '5 C06, 3 E3'),
  'C17': ('crashx', 'fault_enumeration',
          'exhaustive single-fault injection: every faultable I/O call of every operation variant x fault kind, one per execution, on the real library',
-         'Each execution fails exactly one call (EIO; half-written+ENOSPC for writes; OperationalError for commits); afterwards raw state, fresh handle, the faulted handle and a rerun to the normal result are checked.',
+         'Each execution fails exactly one call (EIO; half-written+ENOSPC for writes; EACCES for opens; a failing close; OperationalError for commits); afterwards raw state, fresh handle, the faulted handle (reads and clean_storage through it), completion-or-raise, a rerun to the normal result and - for an interrupted repack - a retry that may refuse but must not destroy are checked.',
          'Single faults only; faults inside SQLite / on reads not injected; injection at the Python call boundary.', '5 C17, 3 E3'),
  'C07': ('streamx', 'model_checking',
          'explicit-state BFS over stream programs to closure of the (implementation stream state x io.BytesIO) product graph; differential oracle',
@@ -37,7 +37,7 @@ CHECKS = {
          'Threads stand in for processes; at most 3 actors; pre-emption bound 1-2 (quick) / 2-3 (thorough); SQLite-internal steps are atomic.', '5 C04, 3 E2'),
  'C08': ('seqx', 'model_checking',
          'explicit-state BFS over sequential multi-handle histories; canonical state includes each handle\'s pinned index snapshot; queries are judged transitions',
-         'All histories up to the depth bound over 2 (quick) / 3 (thorough) handles on one folder: adds through any handle, every query kind through any handle as the first query in each state, pack/clean through the packing handle; every query must report all acknowledged objects with the right bytes/sizes.',
+         'All histories up to the depth bound over 2 (quick) / 3 (thorough) handles on one folder: adds through any handle, every query kind through any handle as the first query in each state, pack/clean through the packing handle; every query (incl. seeking bulk streams) must report all acknowledged objects with the right bytes/sizes; a second pass lowers the internal IN-batch size to 1.',
          'Depth-bounded; 2-content universe; count_objects not judged (not in the statement).', '5 C08, 3 E1'),
  'C09': ('seqx', 'model_checking',
          'explicit-state BFS over write/pack/clean/import histories with recurring contents + hole/count monitors; second exhaustive pass without state merging',
@@ -77,7 +77,7 @@ CHECKS = {
          'Thresholds lowered via instance attributes; universe of 6 keys.', '5 C16'),
  'C15': ('sched', 'model_checking',
          'exhaustive enumeration of all placements of client operations over the gaps of the real backup procedure (real rsync / sqlite3 backup / mv), two rounds, both environment answers for the index timestamp; thorough: threads under the baton scheduler with pre-emption bound 2',
-         'Every non-decreasing placement of each client script (add, pack with/without per-pack cleaning, clean, direct-to-pack) over the six gaps of backup_container, and over the gaps of an incremental backup on top of a first one, is executed for real; every completed backup is opened as a container and checked (pre-existing objects, exposed keys, validate).',
+         'Every non-decreasing placement of each client script (add, pack with/without per-pack cleaning, clean, direct-to-pack) over the six gaps of backup_container, and over the gaps of an incremental backup on top of a first one, is executed for real; every completed backup is opened as a container and checked (pre-existing objects, exposed keys, validate). Both tiers also run backup and client as real threads under the baton scheduler (client pre-emptible at each visible I/O call, pre-emption bound 1 quick / 2 thorough).',
          'Local destinations; rsync binary trusted; one rsync call = one step in the quick tier; client operations atomic in the quick tier.', '5 C15, 3 E2'),
 }
 
